@@ -6,6 +6,7 @@ objects identically (callables are described by parameters and rebuilt on applic
 import numpy as np
 
 from . import _rfa as R
+from .. import callform
 
 MUTATORS = ["append_one_sample", "interpolate", "recreate_from_average", "integral_match", "noise", "repeat", "trend",
             "smooth", "scale_x", "scale_y", "shift_x", "shift_y", "normalize_x", "normalize_y", "truncate_by_value",
@@ -54,7 +55,16 @@ def match_admissible(x, rx):
 
 
 def gen_op(rng, wv, allow=None, new_x_container=True):
-    """Draw one admissible mutator for the current state of `wv`; returns an op dict or None."""
+    """Draw one admissible mutator for the current state of `wv`; returns an op dict or None.  The op carries a
+    "form" seed: the documented call form (optional parameters positionally in documented order, mandatory ones by
+    name, or plain) is drawn from it on application, independently for every object the op is applied to."""
+    op = _gen_op(rng, wv, allow, new_x_container)
+    if op is not None:
+        op["form"] = int(rng.integers(0, 2 ** 31 - 1))
+    return op
+
+
+def _gen_op(rng, wv, allow=None, new_x_container=True):
     x, y = wv.get()
     rx, ry = wv.get_reference()
     n, nr = len(x), len(rx)
@@ -200,13 +210,14 @@ def materialise(op):
     return name, args, kw, owned
 
 
-def apply(wv, op):
+def apply(wv, op, salt=0):
     name, args, kw, owned = materialise(op)
     if name == "append_one_sample" and kw.get("make_periodic") is False and op.get("omit_default"):
         kw = {}                          # documented default: make_periodic=False
     if "np_seed" in op:
         np.random.seed(op["np_seed"])
-    getattr(wv, name)(*args, **kw)
+    form_rng = np.random.default_rng([op["form"], salt]) if "form" in op else None
+    callform.call(form_rng, getattr(wv, name), "Weaver." + name, args, kw)
     return owned
 
 
